@@ -73,7 +73,7 @@ CHECKS = {
   note="Trusted: encoding_rs as the meaning of each encoding. Three open known findings, all inside the encoding_rs_io / encoding_rs dependencies (pending bytes dropped after EOF on tiny reads; UTF-8 mark not overriding a label; incomplete trailing sequence dropped), each recognised by a counterfactual switch of the reference.",
   tech="bounded exhaustive enumeration of texts x encodings x strategies x read/buffer histories against a reference transcoder"),
  "C18": dict(cat="fault_enumeration", ref="DESIGN.md §3-E5, §4 C18",
-  text="Exhaustive enumeration of child-process behaviours on the real rg binary: --pre with a helper script whose stdout shape (the file, upper-cased, empty, 220 KiB, a NUL after the first line), stderr volume (none, 10 bytes, 1 MiB written before stdout), exit (0, 1, 2, 255, kill -9) and moment of death (before / during / after its output) are the alphabet x rg consuming in {full, -m1, -q, -l, -c, implicit directory search with binary quit} x --pre-glob in {*.txt, absent, !*.dat, *.dat, !*.txt} (quick: one dimension varied at a time; thorough: the full product, 6750 cases), a missing and a non-executable command; -z on gzip / bzip2 / xz archives truncated at EVERY byte length, an unrecognised extension, a plain file. Oracle: results equal rg run on the bytes the command wrote when run once outside rg; non-selected files searched directly; failure after the output was consumed or failure to start => diagnostic naming the file and status 2; early stop with empty stderr is no error; every run ends within a 10 s horizon.",
+  text="Exhaustive enumeration of child-process behaviours on the real rg binary: --pre with a helper script whose stdout shape (the file, upper-cased, empty, 220 KiB, a NUL after the first line), stderr volume (none, 10 bytes, 1 MiB, 3 MiB written before stdout), exit (0, 1, 2, 255, kill -9) and moment of death (before / during / after its output) are the alphabet x rg consuming in {full, -m1, -q, -l, -c, implicit directory search with binary quit} x --pre-glob in {*.txt, absent, !*.dat, *.dat, !*.txt} (quick: one dimension varied at a time; thorough: the full product, 9000 cases), a missing and a non-executable command; -z on gzip / bzip2 / xz archives truncated at EVERY byte length, an unrecognised extension, a plain file. Oracle: results equal rg run on the bytes the command wrote when run once outside rg; non-selected files searched directly; failure after the output was consumed or failure to start => diagnostic naming the file and status 2; early stop with empty stderr is no error; every run ends within a 10 s horizon.",
   note="Trusted: /bin/sh, gzip, bzip2, xz as the environment. The early-stop x non-empty-stderr cell is executed but not judged (racy by construction and not specified). Where binary detection fires depends on how bytes arrive (C14), so the NUL shape is judged on errors and blocking only.",
   tech="exhaustive fault enumeration over the child-process behaviour alphabet x consumption modes; every truncation point of each archive"),
  "C19": dict(cat="exploration", ref="DESIGN.md §4 C19",
